@@ -2,6 +2,7 @@
 python -m mc.mk_refactor_task R1 "<area description>" """
 import json, os, subprocess, sys
 rid, area = sys.argv[1], sys.argv[2]
+extra = sys.argv[3] if len(sys.argv) > 3 else ''
 wt = '/tmp/wt/%s' % rid
 props = [json.loads(l) for l in open('/verif/properties.jsonl')]
 subprocess.check_call(['git', '-C', '/repo', 'worktree', 'add', '-q', '--detach', wt, 'HEAD'])
@@ -22,7 +23,7 @@ Each change is the kind of thing a maintainer really commits: a refactor (extrac
 attributes, methods or local variables, restructure control flow, replace one internal data structure or standard-library
 primitive by an equivalent one, replace one way of calling a third-party API by an equivalent one), a genuine performance
 improvement (avoid repeated work, batch requests), a robustness or logging improvement, a Python-3 clean-up. Each should be
-substantial (roughly 20-120 changed lines), not cosmetic, and the three should differ in kind. They must NOT change any
+substantial (roughly 20-120 changed lines), not cosmetic, and the three should differ in kind. {extra} They must NOT change any
 public name, signature, default or documented behaviour, and they must keep ALL of the following user-visible properties of
 the library true for every input, interleaving and history (read them carefully and re-read the code you touch against
 them; if a change would break or even weaken one of them in some corner, fix the change or choose another one):
